@@ -10,6 +10,8 @@ package main
 // set, slice size, answer) and the acknowledgements written.
 
 import (
+	"bufio"
+	"bytes"
 	"errors"
 	"fmt"
 	"io"
@@ -77,12 +79,23 @@ type c06Scenario struct {
 	strat   string
 }
 
+type c06Ret struct {
+	kind       string // msg big err
+	msg, topic []byte
+	size       int
+	read       bool
+	cls        string
+}
+
+func (r c06Ret) String() string { return fmt.Sprintf("%s %s %d", r.kind, r.cls, r.size) }
+
 type c06Result struct {
 	events  []event
 	fresh   []bool
-	returns []string
+	returns []c06Ret
 	acks    []byte
 	nTimeout, nNoProgress int
+	dials                 int
 }
 
 // c06Bytes renders long byte strings in segments, lengths as binary numbers.
@@ -241,7 +254,7 @@ func c06Run(sc *c06Scenario) (*c06Result, error) {
 	for {
 		msg, topic, err := client.ReadSlices()
 		if err == nil {
-			res.returns = append(res.returns, fmt.Sprintf("RetMsg %s %s", c06Bytes(msg), c06Bytes(topic)))
+			res.returns = append(res.returns, c06Ret{kind: "msg", msg: append([]byte(nil), msg...), topic: append([]byte(nil), topic...)})
 			if !requested {
 				requested = true
 				// the client is online: place the test's own requests
@@ -287,18 +300,30 @@ func c06Run(sc *c06Scenario) (*c06Result, error) {
 				choices = choices[1:]
 			}
 			if !read {
-				res.returns = append(res.returns, fmt.Sprintf("RetBig %s %d BigNotRead", coqString(big.Topic), big.Size))
+				res.returns = append(res.returns, c06Ret{kind: "big", topic: []byte(big.Topic), size: big.Size})
 				continue
 			}
 			content, rerr := big.ReadAll()
 			if rerr != nil {
-				res.returns = append(res.returns, fmt.Sprintf("RetBig %s %d (BigReadErr %s)", coqString(big.Topic), big.Size, c06Class(rerr)))
+				res.returns = append(res.returns, c06Ret{kind: "big", topic: []byte(big.Topic), size: big.Size, read: true, cls: c06Class(rerr)})
 				break
 			}
-			res.returns = append(res.returns, fmt.Sprintf("RetBig %s %d (BigContent %s)", coqString(big.Topic), big.Size, c06Bytes(content)))
+			res.returns = append(res.returns, c06Ret{kind: "big", topic: []byte(big.Topic), size: big.Size, read: true, msg: content})
 			continue
 		}
-		res.returns = append(res.returns, "RetErr "+c06Class(err))
+		res.returns = append(res.returns, c06Ret{kind: "err", cls: c06Class(err)})
+		if c06Class(err) == "CTimeout" {
+			// The connection must have been dropped: the next call dials
+			// again (refused by the harness) and reads nothing more.
+			_, _, err2 := client.ReadSlices()
+			if err2 == nil {
+				res.returns = append(res.returns, c06Ret{kind: "msg"})
+			} else if errors.As(err2, &big) {
+				res.returns = append(res.returns, c06Ret{kind: "big", size: big.Size})
+			} else {
+				res.returns = append(res.returns, c06Ret{kind: "err", cls: c06Class(err2)})
+			}
+		}
 		break
 	}
 	w := written()
@@ -306,6 +331,7 @@ func c06Run(sc *c06Scenario) (*c06Result, error) {
 		ackStart = len(w)
 	}
 	res.acks = w[ackStart:]
+	res.dials = dials
 	// the history ends here; what follows only lets the client wind down
 	for _, e := range log.take() {
 		if e.Kind == "read" {
@@ -340,24 +366,46 @@ func c06Term(sc *c06Scenario, res *c06Result) string {
 	if B < 16 {
 		B = 16
 	}
+	// long byte strings that are slices of the stream are named by position
+	ref := func(b []byte) string {
+		if len(b) > 160 {
+			if i := bytes.Index(sc.stream, b); i >= 0 {
+				return fmt.Sprintf("(sub S %d %d)", i, len(b))
+			}
+		}
+		return c06Bytes(b)
+	}
 	evs := make([]string, len(res.events))
 	for i, e := range res.events {
 		ans := coqRAns(e.Ans, e.Data)
 		if e.Ans == rData {
-			ans = "(RData " + c06Bytes(e.Data) + ")"
+			ans = "(RData " + ref(e.Data) + ")"
 		}
 		evs[i] = fmt.Sprintf("(%s, %s, %d, %s)", coqBool(res.fresh[i]), coqBool(e.Armed), e.Want, ans)
 	}
 	rets := make([]string, len(res.returns))
 	for i, r := range res.returns {
-		rets[i] = "(" + r + ")"
+		switch r.kind {
+		case "msg":
+			rets[i] = fmt.Sprintf("RetMsg %s %s", ref(r.msg), ref(r.topic))
+		case "big":
+			rd := "BigNotRead"
+			if r.read && r.cls != "" {
+				rd = "(BigReadErr " + r.cls + ")"
+			} else if r.read {
+				rd = "(BigContent " + ref(r.msg) + ")"
+			}
+			rets[i] = fmt.Sprintf("RetBig %s %d %s", ref(r.topic), r.size, rd)
+		default:
+			rets[i] = "RetErr " + r.cls
+		}
 	}
 	ch := make([]string, len(sc.choices))
 	for i, c := range sc.choices {
 		ch[i] = coqBool(c)
 	}
-	return fmt.Sprintf("StreamCase %d %s %s %s [%s] [%s] %s", B, coqBool(sc.pause), c06Bytes(sc.stream),
-		coqList(ch), strings.Join(evs, "; "), strings.Join(rets, "; "), coqBytes(res.acks))
+	return fmt.Sprintf("(let S := %s in StreamCase %d %s S %s [%s] [%s] %s %d)", c06Bytes(sc.stream), B, coqBool(sc.pause),
+		coqList(ch), strings.Join(evs, "; "), strings.Join(rets, "; "), c06Bytes(res.acks), res.dials)
 }
 
 // ---------------------------------------------------------------------------
@@ -600,6 +648,118 @@ func c06PlanRandom(r *rng, total, maxChunk int, toNum, toDen int, anyNum, anyDen
 	return p
 }
 
+// ---------------------------------------------------------------------------
+// bufio.Reader micro-correspondence
+
+type c06Source struct {
+	r     *rng
+	reads []string // (want, answer) per Read, as Coq terms
+	left  int      // reads still to be answered from the script; then EOF
+}
+
+func (s *c06Source) Read(p []byte) (int, error) {
+	kind := rEOF
+	if s.left > 0 {
+		s.left--
+		switch k := s.r.intn(20); {
+		case k < 14:
+			kind = rData
+		case k < 17:
+			kind = rTimeout
+		case k < 18:
+			kind = rEOF
+		case k < 19:
+			kind = rClosed
+		default:
+			kind = rHard
+		}
+	}
+	if kind == rData {
+		n := 1 + s.r.intn(len(p))
+		if s.r.chance(1, 4) {
+			n = len(p)
+		}
+		d := s.r.bytes(n)
+		copy(p, d)
+		s.reads = append(s.reads, fmt.Sprintf("(%d, %s)", len(p), coqRAns(rData, d)))
+		return n, nil
+	}
+	s.reads = append(s.reads, fmt.Sprintf("(%d, %s)", len(p), coqRAns(kind, nil)))
+	switch kind {
+	case rTimeout:
+		return 0, errSimTimeout
+	case rEOF:
+		return 0, io.EOF
+	case rClosed:
+		return 0, net.ErrClosed
+	}
+	return 0, errSimHard
+}
+
+func c06ErrCode(err error) int {
+	var ne net.Error
+	switch {
+	case err == nil:
+		return 0
+	case errors.Is(err, bufio.ErrBufferFull):
+		return 5
+	case errors.Is(err, io.EOF):
+		return 2
+	case errors.Is(err, net.ErrClosed):
+		return 3
+	case errors.As(err, &ne) && ne.Timeout():
+		return 1
+	case errors.Is(err, errSimHard):
+		return 4
+	}
+	return 7
+}
+
+func c06BufioCase(r *rng, B int) (string, int) {
+	src := &c06Source{r: r, left: 4 + r.intn(30)}
+	br := bufio.NewReaderSize(src, B)
+	nops := 5 + r.intn(40)
+	var ops, results []string
+	for i := 0; i < nops; i++ {
+		switch r.intn(4) {
+		case 0:
+			b, err := br.ReadByte()
+			ops = append(ops, "OpReadByte")
+			if err != nil {
+				results = append(results, fmt.Sprintf("([], 0, %d)", c06ErrCode(err)))
+			} else {
+				results = append(results, fmt.Sprintf("([%d], 1, 0)", b))
+			}
+		case 1:
+			n := r.intn(B + 4)
+			p, err := br.Peek(n)
+			ops = append(ops, fmt.Sprintf("OpPeek %d", n))
+			results = append(results, fmt.Sprintf("(%s, %d, %d)", coqBytes(p), len(p), c06ErrCode(err)))
+		case 2:
+			n := r.intn(2*B + 2)
+			d, err := br.Discard(n)
+			ops = append(ops, fmt.Sprintf("OpDiscard %d", n))
+			results = append(results, fmt.Sprintf("([], %d, %d)", d, c06ErrCode(err)))
+		default:
+			n := 1 + r.intn(2*B+2)
+			p := make([]byte, n)
+			m, err := br.Read(p)
+			ops = append(ops, fmt.Sprintf("OpRead %d", n))
+			results = append(results, fmt.Sprintf("(%s, %d, %d)", coqBytes(p[:m]), m, c06ErrCode(err)))
+		}
+	}
+	return fmt.Sprintf("BufioCase %d %s %s %s", B, coqList(ops), coqList(src.reads), coqList(results)), len(src.reads)
+}
+
+type c06Pending struct {
+	term string
+	desc any
+	kind string
+	nt   bool
+}
+
+const c06Shard = 60
+
 func runC06(tier string, seed uint64, out string) error {
 	r := newRng(seed)
 	cs := newCaseSet("C06", "C06Check", "c06case", "c06_run")
@@ -608,6 +768,7 @@ func runC06(tier string, seed uint64, out string) error {
 		scale = 10
 	}
 	var firstErr error
+	var regular, heavy []c06Pending
 	totals := map[string]int{}
 	nTimeout, nNoProgress, nErrRet, nBigRet := 0, 0, 0, 0
 	add := func(sc *c06Scenario, st *c06Stream) {
@@ -622,12 +783,12 @@ func runC06(tier string, seed uint64, out string) error {
 		nTimeout += res.nTimeout
 		nNoProgress += res.nNoProgress
 		for _, rt := range res.returns {
-			if strings.HasPrefix(rt, "RetBig") {
+			if rt.kind == "big" {
 				nBigRet++
 			}
 		}
-		last := res.returns[len(res.returns)-1]
-		if last != "RetErr CEOF" {
+		last := res.returns[len(res.returns)-1].String()
+		if last != "err CEOF 0" {
 			nErrRet++
 		}
 		desc := map[string]any{"kind": sc.strat, "B": sc.B, "pause": sc.pause, "stream_len": len(sc.stream),
@@ -644,7 +805,12 @@ func runC06(tier string, seed uint64, out string) error {
 			}
 			desc["plan"] = ops
 		}
-		cs.add(c06Term(sc, res), desc, sc.strat, len(res.events) > 2)
+		pc := c06Pending{term: c06Term(sc, res), desc: desc, kind: sc.strat, nt: len(res.events) > 2}
+		if sc.B == 0 {
+			heavy = append(heavy, pc)
+		} else {
+			regular = append(regular, pc)
+		}
 		totals[sc.strat]++
 	}
 	mkChoices := func(n int, mode int) []bool {
@@ -691,8 +857,8 @@ func runC06(tier string, seed uint64, out string) error {
 			// every single cut position (first two streams of each size: all of
 			// them; others: sampled), plain and with an expiry at the cut
 			step := 1
-			if si >= 2 || total > 400 {
-				step = 1 + total/40
+			if si >= 1 || total > 300 {
+				step = 1 + total/20
 			}
 			for k := 1 + r.intn(step); k < total; k += step {
 				add(base("cut", r.chance(1, 2), c06PlanCut(total, k, false, false)), st)
@@ -715,10 +881,42 @@ func runC06(tier string, seed uint64, out string) error {
 			}
 		}
 	}
+	// a stall while a duplicate big message is being skipped: the error return
+	// must drop the connection (the stream position is inside the payload)
+	for _, B := range []int{16, 32, 64, 256} {
+		for v := 0; v < 6*scale; v++ {
+			st := &c06Stream{bytes: []byte{0x20, 2, 0, 0}, bounds: []int{4}, desc: []string{"CONNACK"}}
+			addPkt := func(p []byte, d string, big bool) {
+				st.bytes = append(st.bytes, p...)
+				st.bounds = append(st.bounds, len(st.bytes))
+				st.desc = append(st.desc, d)
+				if big {
+					st.nBig++
+				}
+			}
+			addPkt(c06Publish(0, false, false, "m", 0, []byte("go")), "PUBLISH q0 2B", false)
+			topic := c06Topic(r, 1+r.intn(min(B-4, 10)))
+			n := B + 1 + r.intn(2*B)
+			payload := r.bytes(n)
+			addPkt(c06Publish(2, false, false, topic, 5, payload), fmt.Sprintf("PUBLISH q2 %dB big", n), true)
+			dupStart := len(st.bytes)
+			addPkt(c06Publish(2, false, true, topic, 5, payload), fmt.Sprintf("PUBLISH q2 %dB big duplicate", n), false)
+			addPkt(c06Ack(0x62, 5), "PUBREL", false)
+			addPkt(c06Publish(0, false, false, "tail", 0, []byte{1, 2, 3}), "PUBLISH q0 3B", false)
+			total := len(st.bytes)
+			k := dupStart + B + 4 + r.intn(n-B)
+			plan := []c06Op{{n: k}, {any: true}, {any: true}, {n: total - k}}
+			if v%3 == 2 {
+				plan = []c06Op{{n: k}, {}, {n: total - k}} // progress-making only: must be tolerated
+			}
+			add(&c06Scenario{B: B, pause: true, stream: st.bytes, plan: plan,
+				choices: mkChoices(st.nBig+1, r.intn(3)), strat: "dup-big-stall"}, st)
+		}
+	}
 	// the default buffer size (128 KiB)
 	{
 		B := 128 * 1024
-		nDef := 2 * scale
+		nDef := 3 * scale
 		for si := 0; si < nDef; si++ {
 			st := &c06Stream{bytes: []byte{0x20, 2, 0, 0}, bounds: []int{4}, desc: []string{"CONNACK"}}
 			addPkt := func(p []byte, d string, big bool) {
@@ -732,33 +930,63 @@ func runC06(tier string, seed uint64, out string) error {
 			addPkt(c06Publish(0, false, false, "m", 0, []byte("go")), "PUBLISH q0 2B", false)
 			topic := c06Topic(r, 1+r.intn(300))
 			hdr := 4 + len(topic)
-			sizes := []int{B - hdr, B - hdr + 1, B + 2, 2*B + 1}
-			n1 := sizes[r.intn(len(sizes))]
-			addPkt(c06Publish(1, false, false, topic, 7, r.bytes(n1)), fmt.Sprintf("PUBLISH q1 %dB", n1), hdr+n1 > B)
-			addPkt(c06Publish(0, true, false, "after", 0, []byte("aligned")), "PUBLISH q0 7B", false)
-			if si%2 == 1 {
-				n2 := B + 1 + r.intn(B)
-				addPkt(c06Publish(2, false, false, "x/y", 9, r.bytes(n2)), fmt.Sprintf("PUBLISH q2 %dB", n2), true)
+			var plan []c06Op
+			strat := ""
+			switch si % 3 {
+			case 0: // exactly one buffer-load: not a big message
+				n := B - hdr
+				addPkt(c06Publish(1, false, false, topic, 7, r.bytes(n)), fmt.Sprintf("PUBLISH q1 %dB", n), false)
+				strat = "default-random+expiry"
+			case 1: // one byte more
+				n := B - hdr + 1
+				addPkt(c06Publish(1, true, false, topic, 7, r.bytes(n)), fmt.Sprintf("PUBLISH q1 %dB big", n), true)
+				strat = "default-cut+expiry"
+			default: // beyond two buffers, exactly-once, with its release
+				n := 2*B + 1
+				addPkt(c06Publish(2, false, false, topic, 9, r.bytes(n)), fmt.Sprintf("PUBLISH q2 %dB big", n), true)
 				addPkt(c06Ack(0x62, 9), "PUBREL", false)
-				addPkt(c06Publish(0, false, false, "tail", 0, []byte{1, 2, 3}), "PUBLISH q0 3B", false)
+				strat = "default-whole"
 			}
+			addPkt(c06Publish(0, true, false, "after", 0, []byte("aligned")), "PUBLISH q0 7B", false)
 			total := len(st.bytes)
-			base := func(strat string, plan []c06Op) *c06Scenario {
-				return &c06Scenario{B: 0, pause: true, stream: st.bytes, plan: plan,
-					choices: mkChoices(st.nBig+1, r.intn(3)), strat: strat}
+			switch si % 3 {
+			case 0:
+				plan = c06PlanRandom(r, total, 70000, 1, 2, 0, 1)
+			case 1:
+				plan = c06PlanCut(total, B/2+r.intn(B/2), true, false)
+			default:
+				plan = []c06Op{{n: total}}
 			}
-			add(base("default-whole", []c06Op{{n: total}}), st)
-			add(base("default-random+expiry", c06PlanRandom(r, total, 70000, 1, 2, 0, 1)), st)
-			add(base("default-cut+expiry", c06PlanCut(total, B/2+r.intn(B), true, false)), st)
+			add(&c06Scenario{B: 0, pause: true, stream: st.bytes, plan: plan,
+				choices: mkChoices(st.nBig+1, 0), strat: strat}, st)
 		}
 	}
 	if firstErr != nil {
 		return firstErr
+	}
+	// bufio.Reader against its model: random call scripts over a scripted source
+	for i := 0; i < 150*scale; i++ {
+		B := []int{16, 17, 32, 64}[r.intn(4)]
+		term, nreads := c06BufioCase(r, B)
+		regular = append(regular, c06Pending{term: term, desc: map[string]any{"kind": "bufio", "B": B, "reads": nreads},
+			kind: "bufio", nt: nreads > 1})
+		totals["bufio"]++
+	}
+	// the default-size histories are expensive to parse: one per shard
+	for i, pc := range regular {
+		if i%(c06Shard-1) == 0 && len(heavy) > 0 {
+			cs.add(heavy[0].term, heavy[0].desc, heavy[0].kind, heavy[0].nt)
+			heavy = heavy[1:]
+		}
+		cs.add(pc.term, pc.desc, pc.kind, pc.nt)
+	}
+	for _, pc := range heavy {
+		cs.add(pc.term, pc.desc, pc.kind, pc.nt)
 	}
 	cs.extra["by_strategy"] = totals
 	cs.extra["expiries_served"] = nTimeout
 	cs.extra["expiries_without_progress_served"] = nNoProgress
 	cs.extra["histories_ending_in_error_other_than_EOF"] = nErrRet
 	cs.extra["big_message_returns"] = nBigRet
-	return cs.write(out, 60)
+	return cs.write(out, c06Shard)
 }
